@@ -564,3 +564,113 @@ Lemma x_inv p q (s : vsock) : vs_x ti tm p q s -> vs_inv_p ti tm p s.
 Proof. intros [H _]. exact H. Qed.
 
 End Poll.
+
+(* ------------------------------------------------------------------ every event list *)
+Definition op_nolimit (o : vop) : Prop := match o with VoSetLimit m => m = None | _ => True end.
+Definition op_script_legit (o : vop) : Prop := match o with VoPoll sc => script_legit sc = true | _ => True end.
+
+Section Traces.
+Context {CC : Type} (cci : cc_iface CC).
+Notation vsock := (vsock CC).
+Hypothesis Hcc : cc_total cci.
+Variables ti tm : Z.
+
+(* one observation of a trace, in the reading `strict` (true: no Bug error at all; false:
+   BugEmsgSizeNoProbe is the one Bug error allowed) *)
+Definition obs_ok (strict : bool) (ob : vobs (CC:=CC)) : Prop :=
+  match vo_out ob with
+  | VrPoll (PollReadyErr e) _ _ _ => allowed strict e /\ vs_xe ti tm qT (vo_state ob)
+  | VrPoll PollPanic _ _ _ => False
+  | _ => vs_x ti tm 0 qT (vo_state ob)
+  end.
+
+Lemma out_obs_ok strict (s s' : vsock) out dw sw :
+  out_ok strict ti tm s s' out ->
+  obs_ok strict {| vo_out := out; vo_disp_woken := dw; vo_self_woken := sw; vo_state := s' |}.
+Proof.
+  unfold obs_ok; cbn [vo_out vo_state]. destruct out as [|r pk w a| | |]; cbn [out_ok]; try (intros [H _]; exact H).
+  destruct r; cbn [ret_ok]; auto. intros [H _]; exact H.
+Qed.
+
+Lemma op_ef_false (s : vsock) o : op_ef false s o.
+Proof. destruct o; cbn [op_ef]; try exact I. discriminate. Qed.
+
+(* (6) every state of every trace satisfies the invariant; no step panics or reports a Bug other
+   than BugEmsgSizeNoProbe *)
+Theorem vtrace_x : forall ops (s : vsock),
+  tinv ti tm s -> Forall op_clock_ok ops -> Forall (obs_ok false) (vtrace cci s ops).
+Proof.
+  induction ops as [|o rest IH]; intros s Ht Hoc; cbn [vtrace]; [constructor|].
+  inversion Hoc as [|? ? Ho Hrest]; subst.
+  pose proof (vstep_x cci false Hcc ti tm s o Ht Ho (op_ef_false s o)) as Hs.
+  destruct (vstep cci s o) as [[[s' out] dw] sw].
+  constructor; [apply (out_obs_ok false s); exact Hs|].
+  destruct (poll_finished out) eqn:Ef; [constructor|].
+  apply IH; [eapply out_ok_next; eauto|exact Hrest].
+Qed.
+
+(* ... and no Bug error at all when the transport never answers EMSGSIZE (no path limit is ever
+   set, the scripts contain no EMSGSIZE) *)
+Theorem vtrace_strict : forall ops (s : vsock),
+  tinv ti tm s -> v_emsg_limit s = None ->
+  Forall op_clock_ok ops -> Forall op_nolimit ops -> Forall op_script_legit ops ->
+  Forall (obs_ok true) (vtrace cci s ops).
+Proof.
+  induction ops as [|o rest IH]; intros s Ht Hl Hoc Hnl Hsl; cbn [vtrace]; [constructor|].
+  inversion Hoc as [|? ? Ho Hrest]; subst. inversion Hnl as [|? ? Hn Hnrest]; subst.
+  inversion Hsl as [|? ? Hs0 Hsrest]; subst.
+  assert (Hef : op_ef true s o) by (destruct o; cbn [op_ef]; try exact I; intros _; split; assumption).
+  pose proof (vstep_x cci true Hcc ti tm s o Ht Ho Hef) as Hs.
+  pose proof (vstep_limit cci true ti tm s o Ht) as Hlim.
+  destruct (vstep cci s o) as [[[s' out] dw] sw].
+  constructor; [apply (out_obs_ok true s); exact Hs|].
+  destruct (poll_finished out) eqn:Ef; [constructor|].
+  apply IH; [eapply out_ok_next; eauto| |exact Hrest|exact Hnrest|exact Hsrest].
+  rewrite (Hlim Hs eq_refl). destruct o; try exact Hl. exact Hn.
+Qed.
+
+(* the extracted predicate c10_step_ok on the model's own observation trace: holds whenever no
+   path limit is set (with a limit it is refuted: KF2, C10_Proofs.v) *)
+Lemma fresult_not_bug (out : vout) :
+  (forall r a b c, out <> VrPoll r a b c) -> is_bug_result (fresult_of out) = false.
+Proof.
+  destruct out as [|r pk w a|r|r|r]; intro H; try reflexivity.
+  - exfalso. eapply H. reflexivity.
+  - destruct r; reflexivity.
+Qed.
+
+Theorem c10_trace_nolimit c : forall ops (s : vsock) a,
+  tinv ti tm s -> v_emsg_limit s = None ->
+  Forall op_clock_ok ops -> Forall op_nolimit ops ->
+  c10_trace_from c a (ftrace cci s ops) = true.
+Proof.
+  induction ops as [|o rest IH]; intros s a Ht Hl Hoc Hnl; cbn [ftrace]; [reflexivity|].
+  inversion Hoc as [|? ? Ho Hrest]; subst. inversion Hnl as [|? ? Hn Hnrest]; subst.
+  pose proof (vstep_x cci false Hcc ti tm s o Ht Ho (op_ef_false s o)) as Hs.
+  pose proof (vstep_limit cci false ti tm s o Ht) as Hlim.
+  assert (Hstrict : op_script_legit o ->
+            let '(s', out, _, _) := vstep cci s o in out_ok true ti tm s s' out).
+  { intro Hsl. apply (vstep_x cci true Hcc ti tm s o Ht Ho).
+    destruct o; cbn [op_ef]; try exact I. intros _. split; assumption. }
+  assert (Happ : (forall sc, o <> VoPoll sc) ->
+            let '(s', out, _, _) := vstep cci s o in forall r x y z, out <> VrPoll r x y z).
+  { intro Hnp. pose proof (vstep_app_sx cci s o (proj2 (proj1 Ht)) Hnp) as H.
+    destruct (vstep cci s o) as [[[s' out] dw] sw]. apply H. }
+  destruct (vstep cci s o) as [[[s' out] dw] sw] eqn:Est.
+  cbn [c10_trace_from]. apply andb_true_iff. split.
+  - unfold c10_step_ok_at, transport_legit. cbn [fs_event fs_result].
+    destruct o as [t|m|sc|m| |buf| | |n| |]; cbn [fevent_of];
+      try (rewrite fresult_not_bug; [reflexivity|apply Happ; discriminate]).
+    destruct (script_legit sc) eqn:Esl; [|reflexivity].
+    destruct (limit_legit c (ca_lim a)); destruct (negb (ca_changed a)); cbn [andb]; try reflexivity.
+    specialize (Hstrict Esl). cbn [vstep] in Est.
+    destruct (poll cci (set_sends s sc)) as [s1 r]. injection Est as <- <- _ _.
+    cbn [out_ok] in Hstrict. destruct (ret_ok_result true ti tm _ _ _ Hstrict) as [Hnp Hnb].
+    cbn [fresult_of is_bug_result]. destruct r as [| |e|]; try reflexivity; [|congruence].
+    destruct e; try reflexivity. destruct (Hnb b eq_refl) as [_ Hf]. discriminate.
+  - destruct (poll_finished out) eqn:Ef; [reflexivity|].
+    apply IH; [eapply out_ok_next; eauto| |exact Hrest|exact Hnrest].
+    rewrite (Hlim Hs eq_refl). destruct o; try exact Hl. exact Hn.
+Qed.
+
+End Traces.
